@@ -113,6 +113,17 @@ class CoderState(object):
 
         self.idx_value = 0  # only needed for encoder
 
+        self.reset_operator_state()
+
+    # noinspection PyAttributeOutsideInit
+    def reset_operator_state(self):
+        """
+        (Re)initialise everything that is changed by data description operators
+        while a template is processed, i.e. the operator registers, the bitmap
+        and the back reference bookkeeping. A template always starts with these
+        values. This is the case not only for a new message but also for every
+        subset of uncompressed data.
+        """
         self.nbits_offset = 0  # 201
         self.scale_offset = 0  # 202
 
@@ -152,10 +163,12 @@ class CoderState(object):
         This function is only useful for uncompressed data.
         """
         self.idx_subset = idx_subset
-        # Reset new reference values to empty at start of each subset as anything defined
-        # from previous subset should NOT affect this subset. Also we do not
-        # care about what is defined in previous subset so we are not saving them.
-        self.new_refvals = {}
+        # Each subset is a fresh application of the template. Anything defined or
+        # left open by the previous subset, e.g. new reference values, an operator
+        # that is not cancelled, bitmap and back references, must NOT affect this
+        # subset. Also we do not care about what is defined in previous subset so
+        # we are not saving them.
+        self.reset_operator_state()
         self.decoded_descriptors = self.decoded_descriptors_all_subsets[idx_subset]
         self.decoded_values = self.decoded_values_all_subsets[idx_subset]
         self.bitmap_links = self.bitmap_links_all_subsets[idx_subset]
